@@ -195,6 +195,10 @@ def path_tokens(eng, p, st, n):
     """A path value is modelled directly as its token list ListT(STR) (alternating orientation / name)."""
     if isinstance(p.ty, ListT) and isinstance(p.ty.elt, StrT):
         return p
+    if isinstance(p.ty, StrT):
+        v = Val(eng.uf("tokens_of", [STR], LINE)(p.t), LINE)
+        st.assume(LINE.len(v.t) >= 0)
+        return v
     raise Unsupported("path tokens of %s at line %s" % (p.ty, getattr(n, "lineno", "?")))
 
 
@@ -279,9 +283,24 @@ def sorted_list(eng, v, n, st, key=None):
     st.assume(z3.ForAll([i], z3.Implies(rng, z3.And(0 <= fwd[i], fwd[i] < L, bwd[fwd[i]] == i,
                                                     z3.Select(ty.arr(res.t), fwd[i]) == z3.Select(ty.arr(v.t), i)))))
     st.assume(z3.ForAll([i], z3.Implies(rng, z3.And(0 <= bwd[i], bwd[i] < L, fwd[bwd[i]] == i))))
+    # redundant consequence, stated for the benefit of trigger-based instantiation: res[t] is the element that moved to t
+    st.assume(z3.ForAll([i], z3.Implies(rng, z3.Select(ty.arr(res.t), i) == z3.Select(ty.arr(v.t), bwd[i]))))
     eng.last_perm = (fwd, bwd)
+    if "sort_perm" in eng.c.ghost:
+        st.env["sort_perm"] = Val(fwd, MapT(INT, INT))
+        st.env["sort_perm_inv"] = Val(bwd, MapT(INT, INT))
     kw = {k.arg: k.value for k in n.keywords}
     keyf = kw.get("key", key)
+    if keyf is not None and isinstance(keyf, ast.Call) and ast.unparse(keyf.func).endswith("cmp_to_key"):
+        # sort with a comparator: permutation + order w.r.t. the comparator (a pure function under contract)
+        cmpname = ast.unparse(keyf.args[0])
+        con = eng.reg.lookup_simple(eng.c.file, cmpname, eng.imports)
+        eng.assumptions_used.add("assumed: list.sort(key=cmp_to_key(f)) yields a permutation ordered w.r.t. f when f is a total order (proved for compare_gaf in C08)")
+        if con is not None and con.pure:
+            f = eng.uf("fn_" + con.func.replace(".", "_"), [con.params[p] for p in con.params], con.returns)
+            a, b = z3.FreshConst(z3.IntSort(), "sa"), z3.FreshConst(z3.IntSort(), "sb")
+            st.assume(z3.ForAll([a, b], z3.Implies(z3.And(0 <= a, a < b, b < L), f(z3.Select(ty.arr(res.t), a), z3.Select(ty.arr(res.t), b)) <= 0)))
+        return res
     a, b = z3.FreshConst(z3.IntSort(), "sa"), z3.FreshConst(z3.IntSort(), "sb")
 
     def keyof(t):
@@ -365,6 +384,10 @@ class EmptySetT(Ty):
 def b_dict(eng, n, st):
     if not n.args and not n.keywords:
         return Val(None, EmptyDictT())
+    if len(n.args) == 1:
+        v = eng.ev(n.args[0], st)
+        if isinstance(v.ty, DictT):
+            return v
     raise Unsupported("dict(...) at line %s" % n.lineno)
 
 
@@ -457,6 +480,19 @@ def p_tab_join(eng, n, st):
 PATTERN_CALLS["'\\t'.join"] = p_tab_join
 
 
+def l_pickle_dump(eng, n, st):
+    v = eng.ev(n.args[0], st)
+    eng.assumptions_used.add("assumed: pickle.dump followed by pickle.load returns an equal object")
+    for g, gty in eng.c.ghost.items():
+        if g.startswith("pickled") and gty == v.ty:
+            st.env[g] = v
+            return NoneV
+    raise Unsupported("pickle.dump: the contract declares no ghost `pickled_*` of type %s" % v.ty)
+
+
+LIBCALLS["pickle.dump"] = l_pickle_dump
+
+
 # ---- methods on values ---------------------------------------------------------------------------------
 def m_list_append(eng, recv, n, st):
     ty = recv.ty
@@ -467,6 +503,10 @@ def m_list_append(eng, recv, n, st):
     x = eng.coerce(x, ty.elt, st, n, "appended element")
     eng.check_alias(n.func.value, n)
     new = Val(ty.mk(z3.Store(ty.arr(recv.t), ty.len(recv.t), x.t), ty.len(recv.t) + 1), ty)
+    if isinstance(ty.elt, (StrT, IntT)):
+        y = z3.FreshConst(ty.elt.sort(), "cy")
+        c = cnt_uf(eng, ty)
+        st.assume(z3.ForAll([y], c(new.t, y) == c(recv.t, y) + z3.If(y == x.t, 1, 0)))
     eng.assign_target(n.func.value, new, st, n)
     return NoneV
 
@@ -490,10 +530,14 @@ def m_list_sort(eng, recv, n, st):
     return NoneV
 
 
+def cnt_uf(eng, ty):
+    return eng.uf("cnt_" + ty.elt.name, [ty, ty.elt], INT)
+
+
 def m_list_count(eng, recv, n, st):
-    # modelled through a ghost multiplicity counter maintained at append (DESIGN 2.1 rule 7): the contract must
-    # declare `<name>__count_<literal>` ghosts; here we only support the engine-maintained form
-    raise Unsupported("list.count at line %s: use a ghost multiplicity counter" % n.lineno)
+    """xs.count(v): multiplicity function cnt(xs, v), axiomatised at [] and at every append (DESIGN 2.1 rule 7)"""
+    x = eng.coerce(eng.ev(n.args[0], st), recv.ty.elt, st, n, "count argument")
+    return Val(cnt_uf(eng, recv.ty)(recv.t, x.t), INT)
 
 
 def m_set_add(eng, recv, n, st):
@@ -586,7 +630,36 @@ def m_dict_get(eng, recv, n, st):
     return Val(z3.If(has, z3.Select(ty.val(recv.t), k.t), d.t), ty.v)
 
 
+def m_sink_write(eng, recv, n, st):
+    ty = recv.ty
+    x = eng.coerce(eng.ev(n.args[0], st), ty.elt, st, n, "written record")
+    new = Val(ty.mk(z3.Store(ty.arr(recv.t), ty.len(recv.t), x.t), ty.len(recv.t) + 1), ty)
+    eng.assign_target(n.func.value, new, st, n)
+    return NoneV
+
+
+def m_sink_tell(eng, recv, n, st):
+    eng.assumptions_used.add("assumed writer contract: tell() before the k-th write is woff(k), the offset at which a reader finds the k-th written record (strictly increasing)")
+    return Val(eng.uf("woff", [INT], INT)(recv.ty.len(recv.t)), INT)
+
+
+def m_str_rstrip(eng, recv, n, st):
+    if n.args:
+        raise Unsupported("rstrip with arguments at line %s" % n.lineno)
+    return Val(eng.uf("rstrip", [STR], STR)(recv.t), STR)
+
+
+def m_str_split_tab(eng, recv, n, st):
+    a = eng.ev(n.args[0], st) if n.args else None
+    if a is not None and z3.is_int_value(z3.simplify(a.t)) and z3.simplify(a.t).as_long() == str_code("\t"):
+        v = Val(eng.uf("fields_of", [STR], LINE)(recv.t), LINE)
+        st.assume(LINE.len(v.t) >= 1)
+        return v
+    raise Unsupported("str.split form at line %s" % n.lineno)
+
+
 METHODS = {
+    ("ListT", "write"): m_sink_write, ("ListT", "tell"): m_sink_tell, ("StrT", "rstrip"): m_str_rstrip, ("StrT", "split"): m_str_split_tab,
     ("StrT", "startswith"): b_startswith,
     ("ListT", "append"): m_list_append, ("EmptyListT", "append"): m_list_append, ("ListT", "reverse"): m_list_reverse,
     ("ListT", "sort"): m_list_sort, ("ListT", "count"): m_list_count,
@@ -623,6 +696,16 @@ def aug_builder(eng, cur, s, st):
     return t
 
 
+def aug_str_plus_fields(eng, cur, s, st):
+    """raw_line += "\\tA\\tB..." : the result is the field list [raw_line, A, B, ...] (raw_line itself keeps its own tabs)"""
+    v = eng.ev(s.value, st)
+    if isinstance(v.ty, ListT) and isinstance(v.ty.elt, StrT) and v.meta is not None and v.meta.get("leading_tab"):
+        head = eng.coerce(cur, LINE, st, s, "line prefix")
+        return eng.list_concat(head, v, st)
+    raise Unsupported("str += %s at line %s" % (v.ty, s.lineno))
+
+
+AUGASSIGN[("StrT", "Add")] = aug_str_plus_fields
 AUGASSIGN[("ListT", "Add")] = lambda eng, cur, s, st: aug_builder(eng, cur, s, st) if isinstance(cur.ty.elt, StrT) else _aug_default(eng, cur, s, st)
 
 
